@@ -48,6 +48,7 @@ type VC struct {
 	nsym    int
 	fn      string
 	symMark map[*Term]int
+	defs    map[*Term]*Term
 }
 
 func (vc *VC) fresh(hint string, s *Sort) *Term {
@@ -89,6 +90,10 @@ func (vc *VC) define(hint string, t *Term) *Term {
 	}
 	v := vc.fresh(hint, t.S)
 	vc.facts = append(vc.facts, Fact{T: mk("=", "", BoolS, nil, v, t), Def: v})
+	if vc.defs == nil {
+		vc.defs = map[*Term]*Term{}
+	}
+	vc.defs[v] = t
 	return v
 }
 
@@ -122,6 +127,7 @@ type Prelude struct {
 	Ghost  map[string]*Sort // ghost heap field -> value sort
 	Sorts  []string
 	byDef  map[string]*PreludeBlock
+	Ring   map[string]bool // heads of the ring/module axioms (left out of ground-mode attempts)
 }
 
 var symRe = regexp.MustCompile(`[A-Za-z_][A-Za-z0-9_!.$]*`)
@@ -139,6 +145,15 @@ func loadPrelude(dir string) (*Prelude, error) {
 		var clean strings.Builder
 		for _, line := range strings.Split(string(data), "\n") {
 			t := strings.TrimSpace(line)
+			if strings.HasPrefix(t, "; ring-heads ") {
+				if p.Ring == nil {
+					p.Ring = map[string]bool{}
+				}
+				for _, h := range strings.Fields(t)[2:] {
+					p.Ring[h] = true
+				}
+				continue
+			}
 			if strings.HasPrefix(t, "; ghost ") {
 				fs := strings.Fields(t)
 				p.Ghost[fs[2]] = parseSort(strings.Join(fs[3:], " "))
@@ -261,7 +276,8 @@ func (p *Prelude) selectBlocks(used map[string]bool, axiomTriggers map[string]bo
 
 // ---------- emission ----------
 
-func (o *Obligation) emit(p *Prelude, noCOI bool, lean bool) string {
+func (o *Obligation) emit(p *Prelude, noCOI bool, mode string) string {
+	lean := mode != "full"
 	facts := o.facts[:o.NFacts]
 	// cone of influence
 	need := map[*Term]bool{}
@@ -382,6 +398,11 @@ func (o *Obligation) emit(p *Prelude, noCOI bool, lean bool) string {
 				}
 			}
 		}
+		if mode == "ground" {
+			for h := range p.Ring {
+				delete(gf, h)
+			}
+		}
 		sb.WriteString(p.selectBlocks(funs, gf))
 	} else {
 		sb.WriteString(p.selectBlocks(funs, nil))
@@ -393,12 +414,47 @@ func (o *Obligation) emit(p *Prelude, noCOI bool, lean bool) string {
 		}
 		fmt.Fprintf(&sb, "(declare-const %s %s)\n", smtName(v.Name), v.S)
 	}
+	var incl []*Term
 	for i, f := range facts {
 		if included[i] {
-			sb.WriteString("(assert ")
-			sb.WriteString(f.T.SMT())
-			sb.WriteString(")\n")
+			incl = append(incl, f.T)
 		}
+	}
+	goal := o.Goal
+	if !o.Cover && !noInstHints {
+		g2, sks := skolemizeGoal(goal)
+		goal = g2
+		for _, sk := range sks {
+			fmt.Fprintf(&sb, "(declare-const %s %s)\n", smtName(sk.Name), sk.S)
+		}
+		if mode == "ground" {
+			for _, f := range groundFacts(incl, goal, sks) {
+				sb.WriteString("(assert ")
+				sb.WriteString(f.SMT())
+				sb.WriteString(")\n")
+			}
+		} else {
+			for _, f := range incl {
+				sb.WriteString("(assert ")
+				sb.WriteString(f.SMT())
+				sb.WriteString(")\n")
+			}
+			for _, inst := range instances(incl, goal, sks) {
+				sb.WriteString("(assert ")
+				sb.WriteString(inst.SMT())
+				sb.WriteString(") ; instance\n")
+			}
+		}
+		sb.WriteString("(assert (not ")
+		sb.WriteString(goal.SMT())
+		sb.WriteString("))\n")
+		sb.WriteString("(check-sat)\n")
+		return sb.String()
+	}
+	for _, f := range incl {
+		sb.WriteString("(assert ")
+		sb.WriteString(f.SMT())
+		sb.WriteString(")\n")
 	}
 	if o.Cover {
 		sb.WriteString("(assert ")
@@ -412,6 +468,8 @@ func (o *Obligation) emit(p *Prelude, noCOI bool, lean bool) string {
 	sb.WriteString("(check-sat)\n")
 	return sb.String()
 }
+
+var noInstHints = os.Getenv("GOCV_NOINST") != ""
 
 // ---------- solvers ----------
 
@@ -484,28 +542,56 @@ func (o *Obligation) discharge(p *Prelude, tmpdir string, timeoutS int) {
 		leanT = timeoutS
 	}
 	if o.Cover {
-		o.dischargeOnce(p, tmpdir, timeoutS, false)
+		o.dischargeOnce(p, tmpdir, timeoutS, "full")
 		return
 	}
-	o.dischargeOnce(p, tmpdir, leanT, true)
+	var notes []string
+	var secs float64
+	if o.hasQuantFacts() && !noInstHints {
+		gT := 6
+		if timeoutS > 60 {
+			gT = 15
+		}
+		o.dischargeOnce(p, tmpdir, gT, "ground")
+		if o.Status == "proved" {
+			return
+		}
+		notes = append(notes, "[ground attempt] "+o.Output)
+		secs += o.Seconds
+		o.Status, o.Output, o.Model = "", "", nil
+	}
+	o.dischargeOnce(p, tmpdir, leanT, "lean")
 	if o.Status == "proved" {
+		o.Seconds += secs
 		return
 	}
-	leanOut, leanSecs := o.Output, o.Seconds
+	notes = append(notes, "[lean attempt] "+o.Output)
+	secs += o.Seconds
 	o.Status, o.Output, o.Model = "", "", nil
-	o.dischargeOnce(p, tmpdir, timeoutS, false)
-	o.Seconds += leanSecs
+	o.dischargeOnce(p, tmpdir, timeoutS, "full")
+	o.Seconds += secs
 	if o.Status != "proved" {
-		o.Output = o.Output + "\n[lean attempt] " + leanOut
+		o.Output = o.Output + "\n" + strings.Join(notes, "\n")
 	}
 }
 
-func (o *Obligation) dischargeOnce(p *Prelude, tmpdir string, timeoutS int, lean bool) {
-	text := o.emit(p, false, lean)
+func (o *Obligation) hasQuantFacts() bool {
+	c := map[*Term]bool{}
+	for _, f := range o.facts[:o.NFacts] {
+		if containsForall(f.T, c) {
+			return true
+		}
+	}
+	return false
+}
+
+func (o *Obligation) dischargeOnce(p *Prelude, tmpdir string, timeoutS int, mode string) {
+	lean := mode != "full"
+	text := o.emit(p, false, mode)
 	o.SMTSize = len(text)
 	suffix := ".smt2"
 	if lean {
-		suffix = ".lean.smt2"
+		suffix = "." + mode + ".smt2"
 	}
 	base := sanitize(o.Func + "." + o.Name)
 	if len(base) > 180 {
